@@ -27,13 +27,13 @@ def harness_source(prelude=()):
     return '\n'.join(lines) + '\n'
 
 
-def load(target, d, prelude=(), name=''):
+def load(target, d, prelude=(), name='', std=None):
     src = os.path.join(d, 'byteorder_harness%s.c' % name)
     with open(src, 'w') as f:
         f.write(harness_source(prelude))
     try:
-        _, std = build.library_units()
-        bcs = build.compile_units([src], os.path.join(d, 'bo_' + target + name), target=target, std=std)
+        _, pstd = build.library_units()
+        bcs = build.compile_units([src], os.path.join(d, 'bo_' + target + name), target=target, std=std or pstd)
     except build.BuildError as e:
         raise Broken('byte-order helper unit does not compile (a helper named in DESIGN.md 4.13 is missing?): %s' % e)
     ll = os.path.join(d, 'bo_%s%s.ll' % (target, name))
@@ -71,7 +71,9 @@ def argbyte(n, j):
 def run(tier, res):
     d = build.scratch()
     mods = {'le': load('le', d), 'be': load('be', d),
-            'le, after <endian.h>, <byteswap.h>, <arpa/inet.h>': load('le', d, LIBC_PRELUDE, '_libc')}
+            'le, after <endian.h>, <byteswap.h>, <arpa/inet.h>': load('le', d, LIBC_PRELUDE, '_libc'),
+            'le, -std=gnu17, after the C library headers': load('le', d, LIBC_PRELUDE, '_gnu17', std='gnu17'),
+            'le, -std=c99 (no GNU extensions)': load('le', d, (), '_c99', std='c99')}
     results = {}
     for tg, mod in mods.items():
         big = mod.big_endian
